@@ -26,11 +26,14 @@ RULE = ('family = one store (new / from_dict / from_list with immutable_warranty
         'array write); mutate the original container after construction (pickle and wu '
         'only, the property exempts copy); re-read; stores whose examples are tuples with '
         'mutable content; in 15% of the families two client threads read and mutate '
-        'concurrently under the thread scheduler. Oracle: after every step every '
+        'concurrently under the thread scheduler; in 10% every example is damaged while the '
+        'iteration that delivers it goes on (also over selections with runs of equal '
+        'indices, and with an original container that lists one object twice or shares a '
+        'sub-object between examples). Oracle: after every step every '
         'read equals the pristine snapshot taken at construction. Non-trivial = a '
         'mutation happened before a later read; distinct = distinct (store, payload, '
         'history).')
-PROBES = ['iterator_kept_open', 'slice_dataset_kept', 'two_client_threads', 'mutated_then_reread_same_path', 'mutated_then_reread_other_path',
+PROBES = ['every_example_damaged_while_the_iteration_goes_on', 'selection_with_repeated_neighbouring_indices', 'iterator_kept_open', 'slice_dataset_kept', 'two_client_threads', 'mutated_then_reread_same_path', 'mutated_then_reread_other_path',
           'original_container_mutated', 'read_by_prefetch_worker',
           'first_access_object_mutated', 'cached_access_object_mutated',
           'repetition_kept_and_read_again', 'copy_kept_and_read_again', 'endless_repetition_second_round', 'constructed_through_another_entry_point', 'original_container_grew_or_shrank', 'empty_container_refused', 'dataset_from_json_file']
@@ -107,6 +110,27 @@ def gen(rng, tier, index):
                           'ops': []})
         return cases
     cases = []
+    if n >= 1 and rng.random() < 0.1:
+        # every example is damaged while the iteration that delivers it goes on; the
+        # caller's container may list one object twice / share a sub-object between
+        # examples; selections with runs of equal indices
+        alias = rng.choice([None, 'twice', 'shared']) if store != 'new_json' else None
+        for j in range(3):
+            ops = []
+            for _ in range(rng.randrange(1, 4)):
+                path_ = rng.choice(['iter', 'dupslice', 'copy_iter'] +
+                                   (['items', 'dupslice_items'] if kind == 'dict' else []))
+                idxs = []
+                for _r in range(rng.randrange(1, 4)):
+                    idxs += [rng.randrange(n)] * rng.randrange(1, 4)
+                ops.append(['sweep', path_, idxs, rng.choice(MUTS)])
+                if rng.random() < 0.4:
+                    ops.append(['read', rng.choice(['index', 'iter']), rng.randrange(n), 0])
+            c = {'store': store, 'n': n, 'kind': kind, 'shape': shape, 'ops': ops}
+            if alias:
+                c['alias'] = alias
+            cases.append(c)
+        return cases
     if rng.random() < 0.12:
         # derived datasets that are kept: read, mutate what was handed out, read
         # again through the very same derived object
@@ -234,6 +258,15 @@ def mutate(v, how):
 def run(case):
     n, kind = case['n'], case['kind']
     exs = [payload(i, case['shape']) for i in range(n)]
+    if case.get('alias') == 'twice' and n >= 2:
+        exs[-1] = exs[0]           # the caller lists one example object twice
+    elif case.get('alias') == 'shared':
+        common = ['c', [1]]        # one sub-object shared by all examples of the caller
+        for e in exs:
+            if isinstance(e, dict):
+                e['shared'] = common
+            elif isinstance(e, list):
+                e.append(common)
     pristine = [W.norm(copy.deepcopy(e)) for e in exs]
     orig = {'k%d' % i: e for i, e in enumerate(exs)} if kind == 'dict' else list(exs)
     violations, probes, fired = [], {}, {}
@@ -377,6 +410,46 @@ def run(case):
                             raise
                         check(held_it[1], v, held_it[2])
                         held_it[1] += 1
+                    continue
+                if op[0] == 'sweep':
+                    # iterate and damage every example the moment it is handed out: the
+                    # examples that follow in the same iteration must be unaffected
+                    _, path_, idxs_, how_ = op
+                    if path_ in ('dupslice', 'dupslice_items'):
+                        view = ds[list(idxs_)] if n % 2 else ds[np.array(idxs_)]
+                        expect = list(idxs_)
+                    else:
+                        view = ds.copy() if path_ == 'copy_iter' else ds
+                        expect = list(range(n))
+                    if path_.endswith('items'):
+                        view = view.items()
+                    try:
+                        got_n = 0
+                        for j, v in zip(expect, view):
+                            got_n += 1
+                            check(j, v, 'items' if path_.endswith('items') else path_)
+                            if violations:
+                                break
+                            if mutate(v, how_):
+                                mutated_idx.setdefault(j, set()).add(path_)
+                                fired['client_mutation_' + how_] = fired.get('client_mutation_' + how_, 0) + 1
+                            x_ = v[1] if path_.endswith('items') else v
+                            sh_ = x_.get('shared') if isinstance(x_, dict) else \
+                                (x_[-1] if isinstance(x_, list) and x_ and isinstance(x_[-1], list) else None)
+                            if isinstance(sh_, list) and case.get('alias') == 'shared':
+                                sh_.append('MUT')
+                                mutated_idx.setdefault(j, set()).add(path_)
+                                fired['client_mutation_shared_part'] = fired.get('client_mutation_shared_part', 0) + 1
+                        if not violations and got_n != len(expect):
+                            violations.append(hist.viol(
+                                'wrong_length', 'wrong_length:%s:%s' % (store, path_),
+                                'iteration via %s delivered %d of %d examples' % (path_, got_n, len(expect))))
+                        probes['every_example_damaged_while_the_iteration_goes_on'] = 1
+                        if path_.startswith('dupslice'):
+                            probes['selection_with_repeated_neighbouring_indices'] = 1
+                    except (OSError, _sq.OperationalError):
+                        if case['store'] != 'diskcache':
+                            raise
                     continue
                 if op[0] == 'kc_open':
                     how_ = op[2] if len(op) > 2 else 'copy'
